@@ -4,9 +4,11 @@ import (
 	"bytes"
 	"context"
 	"encoding/json"
+	stdflag "flag"
 	"fmt"
 	"os"
 	"reflect"
+	"sort"
 	"strings"
 	"time"
 
@@ -18,6 +20,7 @@ import (
 	yamldec "github.com/vimeo/dials/decoders/yaml"
 	"github.com/vimeo/dials/ptrify"
 	"github.com/vimeo/dials/sources/env"
+	stdflagsrc "github.com/vimeo/dials/sources/flag"
 	"github.com/vimeo/dials/sourcewrap"
 	"github.com/vimeo/dials/transform"
 	yaml "gopkg.in/yaml.v2"
@@ -31,14 +34,18 @@ func init() {
 		ID: "C14",
 		Rule: "Each case: a seeded reflect.StructOf config type (depth <=3, nested/pointer/embedded structs) in which a random subset of leaves carries an alias tag (dialsalias, or the source-specific dialsenvalias / dialsflagalias / dialspflagalias), with and without an explicit primary tag; for every aliased leaf one of the four patterns neither / primary / alias / both is drawn independently and the values are supplied through one alias-capable source: " +
 			"the environment source, sources/flag, sources/pflag, or a JSON / YAML / TOML / Cue document read through sourcewrap.NewTransformingDecoder(decoder, NewAliasMangler(\"dials\")) as ez wraps them, plus a static config type through the ez entry points themselves (with and without a FileFieldNameEncoder, which must re-case primary and alias names alike). Expected: unset / value / value / an error whose text contains the Go field name; non-aliased leaves are set normally at random. Names of primaries and aliases are computed from the generator's word lists. " +
-			"distinct_nontrivial = distinct (source, type-shape, alias-tag kinds, pattern vector) signatures with >=1 aliased leaf.",
+			"Leaves (aliased or not) additionally carry, at random, alias tags that belong to OTHER sources (dialsflagalias on a type read by the environment source or a file decoder, ...): in the source at hand such a tag adds no name, so a leaf with only such tags must behave like any non-aliased leaf (set under its one name, no error). " +
+			"About a third of the sources/flag cases build the source over a FlagSet on which the application has already defined a random subset of the primary and alias flag names itself with the flag package's own definers (string, bool, int, int64, uint, uint64, float64, duration: the kinds whose flag.Getter yields exactly the field's type), through a flag.Set literal or NewCmdLineSet on a substituted flag.CommandLine; sources/flag leaves such flags alone and reads them through flag.Getter, and the four patterns must come out the same. " +
+			"distinct_nontrivial = distinct (source, type-shape, alias-tag kinds, pattern vector) signatures with >=1 leaf carrying an alias tag (its own source's or only another source's).",
 		Assumptions: []string{
 			"a field carrying both an alias tag and a format-specific tag is outside the statement and not generated",
+			"application-defined flags are exercised for sources/flag only: sources/pflag has no typed getter for a flag it did not register and never reads the value of such a flag (pflag.go keeps values only for the flags it registered; the statement is silent on it), so nothing is asserted there",
 			"in the generated types alias tags are put on leaves; an alias on a struct-typed field (section under either name, inner aliases inside both, both keys present with one section empty) is exercised through the static ez config type",
 		},
 		MinDistinct: map[string]int{"quick": 8000, "thorough": 1000000},
 		MinCounters: map[string]map[string]int64{
-			"quick":    {"aliased_leaves_judged": 12000, "pattern_neither": 2000, "pattern_primary": 2000, "pattern_alias": 2000, "both_set_errors_checked": 1500},
+			"quick":    {"aliased_leaves_judged": 12000, "pattern_neither": 2000, "pattern_primary": 2000, "pattern_alias": 2000, "both_set_errors_checked": 1500,
+				"leaves_with_only_another_sources_alias_tag_supplied": 2000, "flag_cases_with_application_defined_flags": 200, "values_supplied_through_application_defined_flags": 300},
 			"thorough": {"aliased_leaves_judged": 300000},
 		},
 		Plan: func(tier string) fw.Plan {
@@ -82,6 +89,17 @@ func runC14(w *fw.Worker) {
 		default:
 			pool = flagLeaves()
 		}
+		// flag source over a FlagSet on which the application defined some flags itself (see below): more of the
+		// kinds the flag package has definers for
+		predef := fam == "flag" && r.Chance(35)
+		if predef {
+			pool = append([]*gen.Leaf(nil), pool...)
+			for rep := 0; rep < 6; rep++ {
+				for _, n := range c14StdFlagKinds {
+					pool = append(pool, gen.LeafByName(n))
+				}
+			}
+		}
 		o := gen.GenOpts{MaxDepth: 3 - r.Intn(2), MaxFields: r.Range(2, 6), StructPct: r.Range(10, 45), TagPct: r.Range(20, 70), Leaves: pool, InitialismPct: 15, TagStyles: []string{"snake", "kebab", "lowerCamel"}}
 		if isFile {
 			o.TagPct = 100 // file keys come from dials tags
@@ -93,8 +111,44 @@ func runC14(w *fw.Worker) {
 		// choose aliased leaves and their alias tags (before the type is built)
 		aliases := map[*gen.LeafRef]*c14Alias{}
 		srcAliasKey := map[string]string{"env": "dialsenvalias", "flag": "dialsflagalias", "pflag": "dialspflagalias"}[fam]
+		// foreignOnly: leaves whose only alias tags belong to OTHER sources (dialsflagalias on a type read by the
+		// environment source or by a file decoder, ...): in the source at hand such a field has exactly one name.
+		foreignOnly := map[*gen.LeafRef]string{}
+		var foreignKeys []string
+		for _, k := range []string{"dialsenvalias", "dialsflagalias", "dialspflagalias"} {
+			if k != srcAliasKey {
+				foreignKeys = append(foreignKeys, k)
+			}
+		}
+		addForeign := func(k int, lr *gen.LeafRef) string {
+			if !r.Chance(22) {
+				return ""
+			}
+			f := lr.Leaf()
+			fk := fw.Pick(r, foreignKeys)
+			switch fk {
+			case "dialsenvalias":
+				f.Tags[fk] = fmt.Sprintf("OTHER_%s_%d", gen.UpperSnake(f.Words), k)
+			default:
+				f.Tags[fk] = fmt.Sprintf("other-%s-%d", gen.Kebab(f.Words), k)
+			}
+			if r.Chance(25) {
+				// alias tags of both other sources
+				for _, fk2 := range foreignKeys {
+					if _, ok := f.Tags[fk2]; !ok {
+						f.Tags[fk2] = fmt.Sprintf("other2-%s-%d", gen.Kebab(f.Words), k)
+						fk += "+" + fk2
+					}
+				}
+			}
+			return fk
+		}
 		for k, lr := range leaves {
+			fgn := addForeign(k, lr)
 			if !r.Chance(45) {
+				if fgn != "" {
+					foreignOnly[lr] = fgn
+				}
 				continue
 			}
 			f := lr.Leaf()
@@ -119,7 +173,7 @@ func runC14(w *fw.Worker) {
 			}
 			aliases[lr] = a
 		}
-		if len(aliases) == 0 {
+		if len(aliases) == 0 && len(foreignOnly) == 0 {
 			return
 		}
 		if !isFile && !gen.FlattenedNamesDistinct(leaves) {
@@ -187,10 +241,21 @@ func runC14(w *fw.Worker) {
 			lf := lr.Leaf().Leaf
 			a := aliases[lr]
 			if a == nil {
-				if r.Chance(45) {
+				pct := 45
+				if foreignOnly[lr] != "" {
+					pct = 70
+					kinds.WriteString("x")
+				}
+				if r.Chance(pct) {
 					v := genVal(lf)
 					layer.Vals[lr] = v
 					supplies = append(supplies, supply{lr, false, v})
+					if foreignOnly[lr] != "" {
+						w.Count("leaves_with_only_another_sources_alias_tag_supplied", 1)
+						pat.WriteByte('p')
+					}
+				} else if foreignOnly[lr] != "" {
+					pat.WriteByte('n')
 				}
 				continue
 			}
@@ -225,6 +290,13 @@ func runC14(w *fw.Worker) {
 			describeTags = append(describeTags, fmt.Sprintf("%s: %s=%q primary dials=%q", lr, a.tagKey, a.verbatim, lr.Leaf().Tags["dials"]))
 		}
 		desc["aliases"] = describeTags
+		if len(foreignOnly) > 0 {
+			var fo []string
+			for lr, k := range foreignOnly {
+				fo = append(fo, fmt.Sprintf("%s: %s", lr, k))
+			}
+			desc["leaves_whose_only_alias_tags_belong_to_other_sources"] = fo
+		}
 		if r.Bool() && gen.FlattenedNamesDistinct(leaves) {
 			// as in ez, another alias-capable source over the same struct builds its view of it first (env and flag
 			// sources flatten the type, which presupposes distinct flattened names)
@@ -247,6 +319,7 @@ func runC14(w *fw.Worker) {
 			}
 			w.Count("cases_where_another_source_saw_the_type_first", 1)
 		}
+		famKey := fam
 		switch {
 		case fam == "env":
 			prefix := fmt.Sprintf("A%dS%dC%d", w.Seed%1000000, w.Shard, i)
@@ -281,6 +354,72 @@ func runC14(w *fw.Worker) {
 				argv = append(argv, "--"+n+"="+t)
 			}
 			desc["argv"] = argv
+			if predef {
+				// The application (or a library linked into it) has defined some of the flags itself, with the flag
+				// package's own definers, before dials registers the config's flags on the same FlagSet: sources/flag
+				// leaves such a flag alone ("so the user can override our behavior") and reads its value through
+				// flag.Getter. Whether the primary or the alias name (or both, or neither) of a field is one of those
+				// flags, the four patterns must come out the same.
+				famKey = "flag:flagset-with-application-defined-flags"
+				fs := stdflag.NewFlagSet("c14", stdflag.ContinueOnError)
+				fs.SetOutput(discard{})
+				defined := map[string]bool{}
+				for _, lr := range leaves {
+					def := c14StdFlagDefiners[lr.Leaf().Leaf.Name]
+					if def == nil {
+						continue
+					}
+					names := []string{flagName(pk.tagKey, false, lr)}
+					if a := aliases[lr]; a != nil {
+						names = append(names, c14FlagAliasName(pk.tagKey, lr, a))
+					}
+					for _, n := range names {
+						if r.Chance(55) && !defined[n] {
+							def(fs, n)
+							defined[n] = true
+						}
+					}
+				}
+				if len(defined) == 0 {
+					w.Count("flag_cases_with_application_defined_flags:none_definable", 1)
+				}
+				var dn []string
+				through := int64(0)
+				for n := range defined {
+					dn = append(dn, n)
+					for _, a := range argv {
+						if strings.HasPrefix(a, "--"+n+"=") {
+							through++
+						}
+					}
+				}
+				sort.Strings(dn)
+				desc["flags_defined_by_the_application_beforehand"] = dn
+				cmdline := r.Chance(40)
+				desc["constructor"] = map[bool]string{true: "NewCmdLineSet on flag.CommandLine", false: "flag.Set literal over the FlagSet"}[cmdline]
+				func() {
+					if !cmdline {
+						set := &stdflagsrc.Set{Flags: fs, ParseFunc: func() error { return fs.Parse(argv) }}
+						got, verr = set.Value(context.Background(), dials.NewType(ptrType))
+						return
+					}
+					oldCL, oldArgs := stdflag.CommandLine, os.Args
+					defer func() { stdflag.CommandLine, os.Args = oldCL, oldArgs }()
+					stdflag.CommandLine, os.Args = fs, append([]string{"c14"}, argv...)
+					set, err := stdflagsrc.NewCmdLineSet(stdflagsrc.DefaultFlagNameConfig(), zero.Interface())
+					if err != nil {
+						verr = fmt.Errorf("NewCmdLineSet: %w", err)
+						return
+					}
+					got, verr = set.Value(context.Background(), dials.NewType(ptrType))
+				}()
+				if len(defined) > 0 {
+					w.Count("flag_cases_with_application_defined_flags", 1)
+					w.Count("values_supplied_through_application_defined_flags", through)
+				}
+				pat.WriteString(fmt.Sprintf("|predef=%d,%v", len(defined), cmdline))
+				break
+			}
 			src, _, err := pk.build(false, zero.Interface(), argv)
 			if err != nil {
 				w.Violation(i, "flag-registration-error:"+fam, err.Error(), desc)
@@ -330,7 +469,7 @@ func runC14(w *fw.Worker) {
 		w.Count("aliased_leaves_judged", int64(len(aliases)))
 		if len(bothFields) > 0 {
 			if verr == nil {
-				w.Violation(i, "both-primary-and-alias-accepted:"+fam, fmt.Sprintf("fields %v were supplied under both names and no error was returned", bothFields), desc)
+				w.Violation(i, "both-primary-and-alias-accepted:"+famKey, fmt.Sprintf("fields %v were supplied under both names and no error was returned", bothFields), desc)
 				return
 			}
 			named := false
@@ -340,30 +479,55 @@ func runC14(w *fw.Worker) {
 				}
 			}
 			if !named {
-				w.Violation(i, "both-set-error-does-not-name-the-field:"+fam, fmt.Sprintf("error %q names none of %v", verr.Error(), bothFields), desc)
+				w.Violation(i, "both-set-error-does-not-name-the-field:"+famKey, fmt.Sprintf("error %q names none of %v", verr.Error(), bothFields), desc)
 				return
 			}
 			w.Count("both_set_errors_checked", 1)
 		} else {
 			if verr != nil {
-				w.Violation(i, "error-without-both-set:"+fam, verr.Error(), desc)
+				key := "error-without-both-set:" + famKey
+				for lr := range foreignOnly {
+					if strings.Contains(verr.Error(), fmt.Sprintf("%q", lr.Leaf().Name)) {
+						key += ":names-a-field-whose-only-alias-tag-belongs-to-another-source"
+						break
+					}
+				}
+				w.Violation(i, key, verr.Error(), desc)
 				return
 			}
 			res, cerr := dials.VerifCompose(zero.Interface(), []reflect.Value{got})
 			if cerr != nil {
-				w.Violation(i, "compose-error:"+fam, cerr.Error(), desc)
+				w.Violation(i, "compose-error:"+famKey, cerr.Error(), desc)
 				return
 			}
 			want := gen.ReferenceStack(reflect.New(spec.Type()).Elem(), []*gen.Layer{layer})
 			if d := gen.Diff(want, reflect.ValueOf(res).Elem()); d != "" {
 				// which pattern had the differing leaf?
 				cls := "non-aliased"
-				for lr, a := range aliases {
+				diffAt := func(lr *gen.LeafRef) bool {
 					p := ""
 					for _, f := range lr.Path {
 						p += "." + f.Name
 					}
-					if strings.HasPrefix(d, p+":") || strings.HasPrefix(d, p+"*") || strings.HasPrefix(d, p+"[") {
+					return strings.HasPrefix(d, p+":") || strings.HasPrefix(d, p+"*") || strings.HasPrefix(d, p+"[")
+				}
+				// (the diff's path marks pointer hops with '*' and may stop at a pointer-held struct that is nil on one side)
+				dpath := d
+				if k := strings.Index(dpath, ": "); k >= 0 {
+					dpath = dpath[:k]
+				}
+				dpath = strings.ReplaceAll(dpath, "*", "")
+				for lr := range foreignOnly {
+					p := ""
+					for _, f := range lr.Path {
+						p += "." + f.Name
+					}
+					if diffAt(lr) || dpath == p || strings.HasPrefix(dpath, p+"[") {
+						cls = "only-another-sources-alias-tag"
+					}
+				}
+				for lr, a := range aliases {
+					if diffAt(lr) {
 						prim := "explicit-primary-tag"
 						if lr.Leaf().TagWords == nil {
 							prim = "implicit-primary-name"
@@ -383,7 +547,7 @@ func runC14(w *fw.Worker) {
 						}
 					}
 				}
-				w.Violation(i, "alias-result-differs:"+fam+":"+cls, d, desc)
+				w.Violation(i, "alias-result-differs:"+famKey+":"+cls, d, desc)
 				return
 			}
 		}
@@ -393,6 +557,21 @@ func runC14(w *fw.Worker) {
 		}
 	})
 }
+
+// c14StdFlagDefiners: how an application defines a flag of the leaf's type with the flag package itself; only the
+// kinds whose flag.Getter returns exactly the field's type (what sources/flag itself registers for them).
+var c14StdFlagDefiners = map[string]func(fs *stdflag.FlagSet, name string){
+	"string":   func(fs *stdflag.FlagSet, n string) { fs.String(n, "", "defined by the application") },
+	"bool":     func(fs *stdflag.FlagSet, n string) { fs.Bool(n, false, "defined by the application") },
+	"int":      func(fs *stdflag.FlagSet, n string) { fs.Int(n, 0, "defined by the application") },
+	"int64":    func(fs *stdflag.FlagSet, n string) { fs.Int64(n, 0, "defined by the application") },
+	"uint":     func(fs *stdflag.FlagSet, n string) { fs.Uint(n, 0, "defined by the application") },
+	"uint64":   func(fs *stdflag.FlagSet, n string) { fs.Uint64(n, 0, "defined by the application") },
+	"float64":  func(fs *stdflag.FlagSet, n string) { fs.Float64(n, 0, "defined by the application") },
+	"duration": func(fs *stdflag.FlagSet, n string) { fs.Duration(n, 0, "defined by the application") },
+}
+
+var c14StdFlagKinds = []string{"string", "bool", "int", "int64", "uint", "uint64", "float64", "duration"}
 
 // c14EnvAliasName: the variable name when the leaf is addressed by its alias.
 func c14EnvAliasName(prefix string, lr *gen.LeafRef, a *c14Alias) string {
